@@ -190,7 +190,9 @@ func extract(repo, out string) error {
 	var b strings.Builder
 	b.WriteString("-- GENERATED by `verifharness extract` from /repo/commonspace/object/keyvalue — do not edit\n")
 	b.WriteString("namespace AnySync.Generated.KV\n")
-	w := func(doc, name string, v bool) { fmt.Fprintf(&b, "/-- %s -/\ndef %s : Bool := %s\n", doc, name, goast.LeanBool(v)) }
+	w := func(doc, name string, v bool) {
+		fmt.Fprintf(&b, "/-- %s -/\ndef %s : Bool := %s\n", doc, name, goast.LeanBool(v))
+	}
 	w("every constant below was found in the expected shape", "shapeOk", ok)
 	fmt.Fprintf(&b, "/-- `const applyBatchSize` (keyvalue.go) -/\ndef applyBatchSize : Nat := %d\n", batch)
 	fmt.Fprintf(&b, "/-- `ldiff.New(divideFactor, compareThreshold)` of the key-value index -/\ndef ldiffDivideFactor : Nat := %d\ndef ldiffCompareThreshold : Nat := %d\n", df, thr)
